@@ -453,6 +453,8 @@ def builtinDig (it : Item) : Out :=
     | 1 => .ret [1]
     | 2 => .ret [2]
     | 3 => .ret [1, 2]
+    | 4 => .raise          -- `raw_input` is not sliceable (an int): `content['raw_input'][:200]` raises TypeError
+    | 5 => .raise          -- `raw_input` is None
     | _ => .ret []
   | .failedOp => if it.content = 0 then .ret [] else .ret [1000 + it.content, 3]
   | _ => .ret []
